@@ -77,8 +77,9 @@ def main(tier, seed):
         "comparisons coincide with exact ones; NJ decisions are compared only where N-2 is a power of two or the exact "
         "criterion has a unique minimum with margin >= 1e-9 (filter harness/comp/treebuild.nj_certified); lengths are "
         "compared within 2^-30 (exactly on ultrametric inputs)",
-        "modelled, not verified: _upgma, _neighbor, the tree-matrix -> Newick loop; not modelled: the '{:.2f}' rendering "
-        "of lengths (checked only to lie within 1/200 of the tree-matrix value), check_taxon_names, non-square input"]
+        "modelled, not verified: _upgma, _neighbor, the tree-matrix -> Newick loop, the '{:.2f}' rendering of lengths "
+        "(Cluster/Fmt2.fmt2: correct rounding to two decimals, ties to even; printed lengths are compared with it "
+        "exactly); not modelled: check_taxon_names, non-square input, lingpy's Newick parser (observed only)"]
     run.assumptions += ["float comparisons on the grid coincide with exact rational comparisons (UPGMA) / on the "
                         "margin-certified stream (NJ)",
                         "none of the C09 theorems has an unproved premise: the cherry-picking lemma "
